@@ -21,7 +21,18 @@ RULE = ("ops: operator x operand pairs over all type combinations of None/bool/i
         "ConfigPlayer._update_subscription, then 1-8 changes: machine variables (set/remove), settings (directly or "
         "through the backing variable), switch states, flipper enable/disable, any player's variables, game start, add "
         "player, ball end (turn hand-over), game end (optionally with a queue handler delaying mode_game_stopping); "
-        "non-trivial = at least one change of something the template reads")
+        "non-trivial = at least one change of something the template reads.  cond: 2-5 handlers registered with "
+        "add_handler('ev[.N]{condition}', priority, **kwargs) (ties in priority, '.N' suffix, handler kwargs overriding the "
+        "post's) on a plain / boolean / relay / queue event posted with kwargs; conditions compare cells of a small pool "
+        "(machine variables, settings, device attributes, player variables, mode.* / game.*) with the value they have or get; "
+        "every handler writes 0-2 of those cells when called, queue handlers hold the queue (queue.wait()) while the harness "
+        "changes variables / switches / the flipper and then clears it, relay handlers return replacement kwargs, boolean "
+        "handlers return False; non-trivial = the set of called handlers differs between 'decided at the handler's turn' and "
+        "'decided at post time' (about 20 % of the cases, kept high by rejection).  subs: 2-7 '{condition}:' entries of the "
+        "real event_player / variable_player in machine-wide groups and in the modes m1 / m2, conditions over 1-2 shared cells "
+        "(40 % device attributes), then 2-8 steps: a change of a shared cell, a group unloaded (mode stop / "
+        "unload_player_events), a group (re)registered (mode start / register_player_events); non-trivial = a group is "
+        "unloaded while another entry reading the same cell lives on and that cell changes afterwards")
 TRUSTED_BASE = [
     "Coq 8.16.1 kernel (coqc); vm_compute for evaluating the model in the correspondence run; no native_compute",
     "axioms: none (every Print Assumptions is 'Closed under the global context')",
@@ -34,6 +45,11 @@ TRUSTED_BASE = [
     "to the model is the tree MPF parses: checked by dump equality on every generated case); float.as_integer_ratio",
     "MpfFakeGameTestCase for starting games / draining balls; the game-state after every lifecycle step is compared with "
     "the harness's own bookkeeping (harness error otherwise)",
+    "hand-written models coq/C16/Cond.v (EventManager._run_handlers / _run_handlers_sequential: sorted handler list, "
+    "merged kwargs, condition evaluated immediately before each call, boolean stop, relay kwargs, queue waits) and "
+    "coq/C16/Multi.v (population of config-player entries, register / unload) tied by the suites cond and subs; the "
+    "observation of the entries' consumers is a wrapper put on EventPlayer/VariablePlayer.handle_subscription_change "
+    "for the duration of a case (the players use __slots__), the real consumer still runs",
 ]
 ASSUMPTIONS = [
     "floats: finite binary64 values, zero or of magnitude in [2^-500, 2^500), as exact rationals with explicit rounding; "
@@ -41,6 +57,11 @@ ASSUMPTIONS = [
     "model (oracle-only: suite 'ext' and the excluded part of 'ops'/'expr', counted in evidence)",
     "floats kept in machine / player variables by the hist generator are small dyadic values (value - prev is exact); "
     "the model's announcement rule is the code's (truthiness of value - prev), the theorem's guard covers the rest",
+    "conditional handlers: the state changes made by a handler while it is called are machine / player variables and "
+    "settings (switch and flipper changes only while a queue is held); _min_priority / blocking_facility, handlers added "
+    "or removed while the event is dispatched, and conditions whose evaluation raises (ZeroDivisionError ...; the generator "
+    "rejects such cases) are not covered; config-player entries: no game-lifecycle step while several entries live (suite "
+    "hist covers those for one entry), text = key, one context per mode",
     "parameters are not named like the global placeholders (machine, settings, device, mode, current_player, players, game, true, false)",
     "a setting is changed through SettingsController.set_setting_value or by writing a VALID value to its backing machine variable (two of the three settings have machine_var: different from their name); invalid raw values and removal of a backing variable are not generated",
     "ZeroDivisionError / IndexError / operators not in the tables (in, not in, is, <<, ...) escape as AssertionError: not a value, outside the property's claim; mode.* and game.* cannot be subscribed (ModePlaceholder / Game have no subscribe()): evaluate_and_subscribe raises, modelled and proved, judged outside the claim",
@@ -58,9 +79,14 @@ LEVEL_TEXT = ("Machine-checked proof (Coq) over a deep embedding of the template
               "variables of any player, turn hand-over, player list), the outcome can only change when a cell behind a "
               "subscribed channel changes, and the re-evaluate/re-subscribe loop never holds a stale value after any history "
               "of announced changes incl. game start / add player / turn hand-over / game end - without any guard for int/str "
-              "valued stores.")
+              "valued stores; the same for every living entry of a population of concurrently registered / unloaded entries, "
+              "which provably do not interact.  Conditional event handlers (plain, boolean, relay, queue events): every "
+              "handler that gets its turn is called iff its condition is true under Python's semantics on the state and "
+              "kwargs of its own turn, which are the posted ones after all writes, queue waits and relay replacements of "
+              "the turns before it; turns follow the priority-sorted list without gaps.")
 LEVEL_NOTE = ("Trusted: Coq kernel + vm_compute; no axioms. Tables translated (T); walker, placeholders and event announcements "
-              "hand-modelled (H) and validated differentially against the working tree on every run; inf/nan/float pow/'%' "
+              "hand-modelled (H), as are the event dispatcher's conditional-handler loop and the config-player entry population, and "
+              "validated differentially against the working tree on every run; inf/nan/float pow/'%' "
               "formatting validated by the oracle only. Model = code with fixes/C16-*.patch (incl. "
               "C16-player-placeholder-game-end.patch).")
 TECHNIQUE = "Coq proof over translated tables + hand-written executable model; differential correspondence (vm_compute); direct oracle against CPython"
@@ -731,9 +757,10 @@ MACHINE_CONFIG = {"settings": SETTINGS,
                   # a device whose monitored attribute is ALIASED (_enabled -> "enabled") and set through __setattr__
                   "flippers": {"fl": {"main_coil": "c_flip", "activation_switch": "s_flip", "enable_events": "fl_on",
                                       "disable_events": "fl_off"}},
-                  "modes": ["m1"],
+                  "modes": ["m1", "m2"],
                   "game": {"balls_per_game": BALLS_PER_GAME, "max_players": MAX_PLAYERS}}
-MODES_CONFIG = {"m1": {"mode": {"start_events": "m1_start", "stop_events": "m1_stop", "priority": 200, "game_mode": False}}}
+MODES_CONFIG = {"m1": {"mode": {"start_events": "m1_start", "stop_events": "m1_stop", "priority": 200, "game_mode": False}},
+                "m2": {"mode": {"start_events": "m2_start", "stop_events": "m2_stop", "priority": 300, "game_mode": False}}}
 GAME_ATTRS = {"num_players": None, "max_players": MAX_PLAYERS, "tilted": False, "slam_tilted": False,
               "balls_per_game": BALLS_PER_GAME}
 DEVICE_READS = [("switches", "sw_a", "state"), ("switches", "sw_b", "state"), ("flippers", "fl", "enabled"),
@@ -1138,6 +1165,14 @@ def gen_ext(rng, tier, i):
     return gen_expr_case(rng, True, dict(EXPR_GAME) if rng.random() < 0.5 else None)
 
 
+def _use(rig):
+    """several rigs live in one worker: futures created outside a running loop (asyncio.ensure_future in
+    evaluate_and_subscribe_template called directly by the harness) must land on THIS machine's loop"""
+    import asyncio
+    asyncio.set_event_loop(rig.loop)
+    return rig
+
+
 def _new_rig():
     from rig import FakeGameRig
     return FakeGameRig(MACHINE_CONFIG, modes=MODES_CONFIG).start()
@@ -1154,7 +1189,7 @@ def _expr_rig(in_game):
             g = r.machine.game
             assert g and g.num_players == 2 and g.player.number == 1 and g.player.ball == 1
         _R[key] = r
-    return _R[key]
+    return _use(_R[key])
 
 
 def setup_env(rig, e):
@@ -1624,7 +1659,7 @@ def gen_hist(rng, tier, i):
 def _hist_rig():
     if "hist" not in _R:
         _R["hist"] = _new_rig()
-    return _R["hist"]
+    return _use(_R["hist"])
 
 
 def _slow_stop(rig, secs=0.5):
@@ -1921,6 +1956,841 @@ def describe_hist(case):
 HDR_HIST = "From C16 Require Import Model.\nDefinition run := hist_run.\nDefinition out_eqb := hist_out_eqb.\n" + names_header()
 
 # ================================================================================================
+# suite "cond": conditional event handlers (add_handler("event{condition}")) on plain / boolean / relay / queue events.
+# Between the post and a handler's turn the state changes: earlier handlers write variables, an earlier handler of a
+# queue event holds the queue (queue.wait()) while the harness changes variables / switches / the flipper, a relay
+# handler replaces kwargs.  Observed: which handlers were called, in which order, with which kwargs.
+EVTYPES = ["plain", "boolean", "relay", "queue"]
+CEV = "c16_cond_ev"
+CEVTYPE = {"plain": "TPlain", "boolean": "TBoolean", "relay": "TRelay", "queue": "TQueue"}
+
+
+def map_reads(t, f):
+    k = t[0]
+    if k == "read":
+        return f(t)
+    if k in ("bin", "cmp"):
+        return [k, t[1], map_reads(t[2], f), map_reads(t[3], f)]
+    if k == "un":
+        return [k, t[1], map_reads(t[2], f)]
+    if k == "boolop":
+        return [k, t[1], [map_reads(x, f) for x in t[2]]]
+    if k == "tuple":
+        return [k, [map_reads(x, f) for x in t[1]]]
+    if k == "if":
+        return [k] + [map_reads(x, f) for x in t[1:4]]
+    if k == "sub":
+        return [k, map_reads(t[1], f), map_reads(t[2], f)]
+    return t
+
+
+def lit_of(v, rng):
+    if v is None:
+        return ["none"]
+    if isinstance(v, bool):
+        return ["bool", v]
+    if isinstance(v, int):
+        return ["num", str(v)] if v >= 0 else ["un", "USub", ["num", str(-v)]]
+    if isinstance(v, float):
+        return ["flt", repr(v)] if v >= 0 and v == v else ["un", "USub", ["flt", repr(-v)]]
+    if isinstance(v, str):
+        return ["str", v]
+    return rlit(rng, False)
+
+
+def cond_tree(rng, pool, env, names, so=False, seen=None):
+    """a condition over the pool: mostly a comparison of a pool read with the value it has now or with a value it is
+    likely to get, so that the truth value flips when the cell changes"""
+    r = rng.random()
+    if r < 0.55:
+        t = rng.choice(pool)
+        cur = env_store(env)["store"].get(lockey(t), ("valerr",))
+        v = cur[1] if cur[0] == "val" and rng.random() < 0.6 else rstored(rng)
+        if t[1] == "settings" and rng.random() < 0.7:
+            v = rng.choice(SETTING_VALUES[t[2]])
+        if t[1] == "device" and rng.random() < 0.7:
+            v = rng.choice([0, 1, True, False])
+        if seen is not None and val_in_dom(v) and not isinstance(v, tuple):
+            seen.setdefault(lockey(t), []).append(tagv(v))
+        tree = ["cmp", rng.choice(["Eq", "Eq", "NotEq", "Lt", "GtE", "Gt"]), t, lit_of(v, rng)]
+        if rng.random() < 0.3:
+            tree = ["boolop", rng.choice(["And", "Or"]), [tree, rexpr(rng, 3, False, names, so)]]
+        elif rng.random() < 0.15:
+            tree = ["un", "Not", tree]
+    elif r < 0.65:
+        tree = rng.choice(pool)
+    else:
+        tree = rexpr(rng, rng.choice([2, 3, 5, 8]), False, names, so)
+    return map_reads(tree, lambda t: rng.choice(pool) if (rng.random() < 0.8 and t not in pool) else t)
+
+
+def change_for_read(rng, t, game, allow_device=True, allow_none_pv=True, seen=None):
+    """a change of the cell the read names (of a machine variable when the cell cannot be written); values that occur
+    in the conditions (seen) are preferred, so that truth values flip"""
+    kind = t[1]
+    prefer = (seen or {}).get(lockey(t))
+    if kind == "settings":
+        return ["set" if rng.random() < 0.5 else "setmv", t[2], tagv(rng.choice(SETTING_VALUES[t[2]]))]
+    if kind == "device" and allow_device:
+        return ["fl", rng.random() < 0.5] if t[2] == "flippers" else ["sw", t[3], rng.choice([0, 1])]
+    if kind in ("player", "playern") and game:
+        x = t[-1] if t[-1] in PVARS else rng.choice(PVARS)
+        if kind == "player":
+            i_p = game["cur"] if rng.random() < 0.7 else rng.randrange(game["n"])
+        else:
+            i_p = int(t[2]) if int(t[2]) < game["n"] and rng.random() < 0.7 else rng.randrange(game["n"])
+        v = rng.choice(prefer) if prefer and x == t[-1] and rng.random() < 0.6 else tagv(rstored(rng))
+        if (x == "score" and v[0] != "i") or (v[0] == "n" and not allow_none_pv):
+            v = tagv(rng.choice([0, 10, 500, 1200]))
+        return ["pv", i_p, x, v]
+    n = t[2] if kind == "machine" else rng.choice(MVARS)
+    if prefer and kind == "machine" and rng.random() < 0.6:
+        return ["mv", n, rng.choice(prefer)]
+    return ["rm", n] if rng.random() < 0.15 else ["mv", n, tagv(rstored(rng))]
+
+
+def eff_prio(h):
+    return h["prio"] + h["extra"]
+
+
+def sim_cond(case, snapshot=False):
+    """the property's own account of the dispatch, on the harness's bookkeeping of the machine state and CPython's
+    operators: handlers in priority order (stable), each condition decided on the state of the moment of the handler's
+    own turn.  snapshot=True: decided on the state at the time of the post (the forbidden behaviour; used only to
+    tell whether a case can distinguish the two).  -> (calls, flags)"""
+    env = json.loads(json.dumps(case["env"]))
+    env0 = json.loads(json.dumps(case["env"]))
+    kw = dict(case["kwargs"])
+    kw0 = dict(kw)
+    ty = case["type"]
+    flags = {"unsup": False, "crash": False}
+    calls = []
+    for h in sorted(case["handlers"], key=lambda h: -eff_prio(h)):
+        mk = dict(kw)
+        mk.update(h["kwargs"])
+        if h["tree"] is not None:
+            if snapshot:
+                e = dict(env0)
+                m0 = dict(kw0)
+                m0.update(h["kwargs"])
+                e["params"] = m0
+            else:
+                e = dict(env)
+                e["params"] = mk
+            ref, trace = ref_result(h["tree"], env_store(e))
+            if trace.get("unsup"):
+                flags["unsup"] = True
+            if trace.get("unsupported_op") or ref[0] not in ("val", "type", "name", "read"):
+                flags["crash"] = True
+                break
+            if not (ref[0] == "val" and bool(ref[1])):
+                continue
+        calls.append({"id": h["id"], "kw": {n: mk[n] for n in PARAMS if n in mk}})
+        for ch in h["acts"]:
+            apply_env_change(env, ch)
+        if ty == "queue" and h["wait"] is not None:
+            for ch in h["wait"]:
+                apply_env_change(env, ch)
+        if ty == "boolean" and h["ret"] == "false":
+            break
+        if ty == "relay" and isinstance(h["ret"], dict):
+            kw.update(h["ret"])
+    return calls, flags
+
+
+def gen_cond(rng, tier, i):
+    while True:
+        game = dict(EXPR_GAME) if rng.random() < 0.4 else None
+        env = gen_env(rng, False, game)
+        env["modes"] = {"m1": rng.random() < 0.5}
+        ty = rng.choice(EVTYPES + ["queue", "queue"])
+        pool = [rread(rng) for _ in range(rng.choice([1, 1, 2, 3]))]
+        kwargs = {n: env["params"][n] for n in PARAMS if n in env["params"] and rng.random() < 0.6}
+        env["params"] = {}
+        names = PARAMS + ["zz"]
+        hs = []
+        seen = {}
+        try:
+            for j in range(rng.choice([2, 2, 3, 3, 4, 5])):
+                h = {"id": j, "prio": rng.choice([1, 1, 2, 3, 5, 10]), "extra": rng.choice([0, 0, 0, 1, 4]), "tree": None,
+                     "text": None, "kwargs": {}, "acts": [], "ret": None, "wait": None}
+                if rng.random() < 0.78:
+                    h["tree"] = cond_tree(rng, pool, env, names, seen=seen)
+                    h["text"] = to_text(h["tree"])
+                    if len(h["text"]) > 300 or any(c in h["text"] for c in "{}"):
+                        raise TooBig()
+                if rng.random() < 0.25:
+                    h["kwargs"] = {rng.choice(PARAMS): tagv(rvalue(rng, True, False))}
+                r = rng.random()
+                if (ty == "boolean" and r < 0.3) or r < 0.04:
+                    h["ret"] = "false"
+                elif (ty == "relay" and r < 0.5) or r > 0.96:
+                    h["ret"] = {rng.choice(PARAMS): tagv(rvalue(rng, True, False)) for _ in range(rng.choice([1, 1, 2]))}
+                hs.append(h)
+            for h in hs:                       # the effects are chosen when all conditions are known
+                for _ in range(rng.choice([0, 1, 1, 2])):
+                    h["acts"].append(change_for_read(rng, rng.choice(pool), game, allow_device=False, seen=seen))
+                if ty == "queue" and rng.random() < 0.55:
+                    h["wait"] = [change_for_read(rng, rng.choice(pool), game, seen=seen) for _ in range(rng.choice([0, 1, 1, 2]))]
+            case = {"type": ty, "env": env, "kwargs": kwargs, "handlers": hs}
+            _, flags = sim_cond(case)
+            _, flags0 = sim_cond(case, snapshot=True)
+        except TooBig:
+            continue
+        if flags["crash"] or flags0["crash"]:
+            continue
+        if rng.random() < 0.6 and not cond_sensitive(case):
+            continue                           # keep the share of cases in which the moment of evaluation matters high
+        return case
+
+
+def apply_inner_change(rig, ch):
+    """a change made by a handler while it is being called (no clock advance)"""
+    m = rig.machine
+    k = ch[0]
+    if k == "mv":
+        m.variables.set_machine_var(ch[1], untag(ch[2]))
+    elif k == "rm":
+        m.variables.remove_machine_var(ch[1])
+    elif k == "set":
+        m.settings.set_setting_value(ch[1], untag(ch[2]))
+    elif k == "setmv":
+        m.variables.set_machine_var(SETTING_MV[ch[1]], untag(ch[2]))
+    elif k == "pv":
+        m.game.player_list[ch[1]][ch[2]] = untag(ch[3])
+    else:
+        raise ValueError(k)
+
+
+def run_cond(case):
+    e = case["env"]
+    rig = _expr_rig(bool(e["game"]))
+    setup_env(rig, e)
+    if e["game"]:
+        setup_players(rig, e)
+    m = rig.machine
+    pm = m.placeholder_manager
+    calls = []
+    state = {"held": None, "done": False}
+    keys = []
+
+    def make(h):
+        def cb(**kwargs):
+            queue = kwargs.pop("queue", None)
+            now = None
+            if h["text"] is not None:
+                try:
+                    now = bool(pm.build_bool_template(h["text"]).evaluate(kwargs))
+                except BaseException as ex:   # noqa
+                    if isinstance(ex, (KeyboardInterrupt, SystemExit)):
+                        raise
+                    now = None
+            calls.append({"id": h["id"], "kw": {n: tagv(kwargs[n]) for n in PARAMS if n in kwargs}, "now": now})
+            for ch in h["acts"]:
+                apply_inner_change(rig, ch)
+            if queue is not None and h["wait"] is not None:
+                queue.wait()
+                state["held"] = (queue, h)
+            if h["ret"] == "false":
+                return False
+            if isinstance(h["ret"], dict):
+                return {k: untag(v) for k, v in h["ret"].items()}
+            return None
+        return cb
+
+    def done(**kwargs):
+        state["done"] = True
+    out = {}
+    try:
+        for h in case["handlers"]:
+            name = CEV + (".%d" % h["extra"] if h["extra"] else "") + ("{%s}" % h["text"] if h["text"] is not None else "")
+            keys.append(m.events.add_handler(name, make(h), priority=h["prio"], **{k: untag(v) for k, v in h["kwargs"].items()}))
+        kw = {k: untag(v) for k, v in case["kwargs"].items()}
+        ty = case["type"]
+        if ty == "plain":
+            m.events.post(CEV, callback=done, **kw)
+        elif ty == "boolean":
+            m.events.post_boolean(CEV, callback=done, **kw)
+        elif ty == "relay":
+            m.events.post_relay(CEV, callback=done, **kw)
+        else:
+            m.events.post_queue(CEV, callback=done, **kw)
+        rig.advance(0.01)
+        guard = 0
+        while state["held"] is not None and guard < 20:
+            guard += 1
+            queue, h = state["held"]
+            state["held"] = None
+            for ch in h["wait"]:
+                apply_real_change(rig, ch)
+            queue.clear()
+            rig.advance(0.01)
+        if rig.machine.stop_future.done() or rig.exception() is not None:
+            raise RuntimeError("machine stopped: %r" % (rig.exception(),))
+    except BaseException as ex:   # noqa
+        if isinstance(ex, (KeyboardInterrupt, SystemExit)):
+            raise
+        out["exc"] = type(ex).__name__ + ": " + str(ex)[:200]
+        _R.pop("expr_game" if e["game"] else "expr", None)
+        try:
+            rig.stop()
+        except BaseException:   # noqa
+            pass
+        out["calls"] = calls
+        out["done"] = state["done"]
+        return out
+    m.events.remove_handlers_by_keys(keys)
+    rig.advance(0.01)
+    out["calls"] = calls
+    out["done"] = state["done"]
+    return out
+
+
+def cond_domain(case):
+    vals = list(case["kwargs"].values())
+    for h in case["handlers"]:
+        vals += list(h["kwargs"].values())
+        if isinstance(h["ret"], dict):
+            vals += list(h["ret"].values())
+    return all(in_dom(v) for v in vals)
+
+
+def oracle_cond(case, out):
+    exp, flags = sim_cond(case)
+    if flags["crash"]:
+        return []
+    if "exc" in out:
+        return [{"sig": "conditional-dispatch-raises", "what": "dispatching the %s event raised %s" % (case["type"], out["exc"])}]
+    texts = {h["id"]: h["text"] for h in case["handlers"]}
+    for c in out["calls"]:
+        if c["now"] is False:
+            return [{"sig": "conditional-handler-stale-condition",
+                     "what": "%s event: handler %d was called although its condition {%s} is false at the moment of the call "
+                             "(it was true when the event was posted / before earlier handlers and queue waits changed the values)"
+                             % (case["type"], c["id"], texts[c["id"]])}]
+    got = [c["id"] for c in out["calls"]]
+    want = [c["id"] for c in exp]
+    if got != want:
+        if sorted(got) == sorted(want):
+            return [{"sig": "handler-order-differs", "what": "%s event: handlers called in order %r, expected %r" % (case["type"], got, want)}]
+        missing = [i for i in want if i not in got]
+        return [{"sig": "conditional-handler-stale-condition",
+                 "what": "%s event: handlers called %r, but on the values of the moment of each handler's turn %r must be called%s"
+                         % (case["type"], got, want, "".join(" (handler %d skipped although {%s} holds at its turn)" % (i, texts[i])
+                                                             for i in missing[:1]))}]
+    for c, w in zip(out["calls"], exp):
+        a = {k: canon_tag(v) for k, v in c["kw"].items()}
+        b = {k: canon_tag(v) for k, v in w["kw"].items()}
+        if json.dumps(a, sort_keys=True) != json.dumps(b, sort_keys=True) and not any(v[0] == "f" and v[1] == "nan" for v in b.values()):
+            return [{"sig": "handler-kwargs-differ", "what": "%s event: handler %d received %r, expected %r" % (case["type"], c["id"], a, b)}]
+    if not out["done"]:
+        return [{"sig": "event-callback-missing", "what": "%s event: the callback of the post was not called" % case["type"]}]
+    return []
+
+
+def tlist(ty, items):
+    """a list literal whose type is explicit when it is empty (the single-case display has no context to infer it)"""
+    items = list(items)
+    return coqlist(items) if items else "(@nil %s)" % ty
+
+
+def ckwargs(d):
+    return tlist("(str * value)", ("(%s, %s)" % (cstr(k), cval(v)) for k, v in d.items()))
+
+
+def chandler(h):
+    cond = "(Some %s)" % cexpr(h["tree"]) if h["tree"] is not None else "(@None expr)"
+    ret = "RFalse" if h["ret"] == "false" else "(RDict %s)" % ckwargs(h["ret"]) if isinstance(h["ret"], dict) else "RNothing"
+    wait = "(Some %s)" % tlist("change", (cchange(c) for c in h["wait"])) if h["wait"] is not None else "(@None (list change))"
+    return "(mkH %d %d %s %s %s %s %s)" % (h["id"], eff_prio(h), cond, ckwargs(h["kwargs"]),
+                                           tlist("change", (cchange(c) for c in h["acts"])), ret, wait)
+
+
+def coq_cond(case, out):
+    _, flags = sim_cond(case)
+    if flags["crash"] or flags["unsup"] or not cond_domain(case):
+        return None
+    env = dict(case["env"])
+    env["params"] = {}
+    inp = "(%s, %s, %s, %s)" % (CEVTYPE[case["type"]], cenv(env), ckwargs(case["kwargs"]),
+                                coqlist(chandler(h) for h in case["handlers"]))
+    calls = []
+    for c in out["calls"]:
+        if not all(in_dom(v) for v in c["kw"].values()):
+            return None
+        calls.append("(%d, %s)" % (c["id"], coqlist("(Some %s)" % cval(c["kw"][n]) if n in c["kw"] else "(@None value)" for n in PARAMS)))
+    return "(%s, (%s, %s))" % (inp, tlist("(Z * list (option value))", calls), blit("exc" in out))
+
+
+def shrink_cond(case):
+    hs = case["handlers"]
+    for i in range(len(hs)):
+        if len(hs) > 1:
+            c = dict(case)
+            c["handlers"] = hs[:i] + hs[i + 1:]
+            yield c
+    for i, h in enumerate(hs):
+        for key, small in (("acts", []), ("wait", [] if h["wait"] is not None else None), ("kwargs", {}), ("ret", None), ("extra", 0)):
+            if h[key] != small:
+                h2 = dict(h)
+                h2[key] = small
+                c = dict(case)
+                c["handlers"] = hs[:i] + [h2] + hs[i + 1:]
+                yield c
+        for key in ("acts", "wait"):
+            if h[key] and len(h[key]) > 1:
+                for j in range(len(h[key])):
+                    h2 = dict(h)
+                    h2[key] = h[key][:j] + h[key][j + 1:]
+                    c = dict(case)
+                    c["handlers"] = hs[:i] + [h2] + hs[i + 1:]
+                    yield c
+        if h["tree"] is not None:
+            for t in shrink_tree(h["tree"]):
+                try:
+                    text = to_text(t)
+                except Exception:
+                    continue
+                h2 = dict(h)
+                h2["tree"] = t
+                h2["text"] = text
+                c = dict(case)
+                c["handlers"] = hs[:i] + [h2] + hs[i + 1:]
+                try:
+                    if sim_cond(c)[1]["crash"]:
+                        continue
+                except TooBig:
+                    continue
+                yield c
+    if case["kwargs"]:
+        for k in list(case["kwargs"]):
+            c = dict(case)
+            c["kwargs"] = {a: b for a, b in case["kwargs"].items() if a != k}
+            yield c
+
+
+def cond_sensitive(case):
+    """the case distinguishes 'decided at the handler's turn' from 'decided at the time of the post'"""
+    try:
+        a, _ = sim_cond(case)
+        b, _ = sim_cond(case, snapshot=True)
+    except TooBig:
+        return False
+    return [c["id"] for c in a] != [c["id"] for c in b]
+
+
+def nontrivial_cond(case, out):
+    return cond_sensitive(case)
+
+
+def describe_cond(case):
+    return "%s %s" % (case["type"], "turn-sensitive" if cond_sensitive(case) else "insensitive")
+
+
+HDR_COND = "From C16 Require Import Cond.\nDefinition run := cond_run.\nDefinition out_eqb := cond_out_eqb.\n" + names_header()
+
+# ================================================================================================
+# suite "subs": several condition-driven config-player entries ("{condition}": keys of the real event_player and
+# variable_player; machine-wide groups and groups in the modes m1 / m2) subscribed at the same time, mostly to the same
+# cells; groups are registered / unloaded (mode start / stop, register_player_events / unload_player_events) at
+# generated points between the changes.  Observed after every step, per entry: was the consumer
+# (handle_subscription_change) called, the value last delivered to it, a fresh evaluation.
+SUB_PLAYERS = {"event": "events", "variable": "variables"}
+SUB_SECTION = {"event": "event_player", "variable": "variable_player"}
+SUB_MODES = ["m1", "m2"]
+
+
+def rread_sub(rng, game):
+    r = rng.random()
+    if r < 0.40:
+        c, d, a = rng.choice(DEVICE_READS[:3])
+        return ["read", "device", c, d, a]
+    if r < 0.65 or (not game and r < 0.85):
+        return ["read", "machine", rng.choice(MVARS)]
+    if r < 0.80 or not game:
+        return ["read", "settings", rng.choice(list(SETTINGS))]
+    if r < 0.92:
+        return ["read", "player", rng.choice(PREADS)]
+    return ["read", "playern", rng.choice([0, 1, 2]), rng.choice(PREADS)]
+
+
+def sub_ids(case, scope_or_group):
+    """entry ids started / cancelled by a step"""
+    if isinstance(scope_or_group, int):
+        return [s["id"] for s in case["subs"] if s["group"] == scope_or_group]
+    return [s["id"] for s in case["subs"] if s["scope"] == scope_or_group]
+
+
+def step_ids(case, st):
+    return sub_ids(case, st[1]) if st[0] in ("reg", "unreg", "mstart", "mstop") else []
+
+
+def sim_subs(case):
+    """reference evaluation of every entry after every step on the harness's bookkeeping: -> flags"""
+    env = json.loads(json.dumps(case["env"]))
+    flags = {"unsup": False, "crash": False}
+
+    def look():
+        for s in case["subs"]:
+            ref, trace = ref_result(s["tree"], env_store(env))
+            if trace.get("unsup"):
+                flags["unsup"] = True
+            if trace.get("unsupported_op") or trace.get("unsubscribable") or ref[0] not in ("val", "type", "read"):
+                flags["crash"] = True
+    look()
+    for st in case["steps"]:
+        if st[0] == "ch":
+            apply_env_change(env, st[1])
+            look()
+    return flags
+
+
+def gen_subs(rng, tier, i):
+    while True:
+        game = dict(EXPR_GAME) if rng.random() < 0.35 else None
+        env = gen_env(rng, False, game)
+        env["params"] = {}
+        env["modes"] = {"m1": False}
+        pool = [rread_sub(rng, game) for _ in range(rng.choice([1, 1, 2]))]
+        seen = {}
+        subs, groups, texts = [], [], set()
+        try:
+            for _ in range(rng.choice([2, 2, 3, 4])):
+                scope = rng.choice(["global", "global", "m1", "m2"])
+                player = rng.choice(["event", "variable"])
+                if scope != "global" and any(g["scope"] == scope and g["player"] == player for g in groups):
+                    continue
+                g = {"g": len(groups), "scope": scope, "player": player}
+                n_before = len(subs)
+                for _ in range(rng.choice([1, 1, 2])):
+                    tree = cond_tree(rng, pool, env, ["zz"], so=True, seen=seen)
+                    if tree_uses_names(tree):
+                        continue
+                    text = to_text(tree)
+                    if (player, text) in texts or len(text) > 300 or any(c in text for c in "{}"):
+                        continue
+                    texts.add((player, text))
+                    subs.append({"id": len(subs), "player": player, "scope": scope, "group": g["g"], "tree": tree, "text": text})
+                if len(subs) > n_before:
+                    groups.append(g)
+                else:
+                    continue
+        except TooBig:
+            continue
+        if len(groups) < 2:
+            continue
+        # the groups: machine-wide ones one by one, the groups of a mode together (mode start / stop)
+        units = [g["g"] for g in groups if g["scope"] == "global"] + sorted(set(g["scope"] for g in groups if g["scope"] != "global"))
+        alive = set()
+        steps = []
+        order = list(units)
+        rng.shuffle(order)
+        for u in order:
+            if rng.random() < 0.85:
+                steps.append(["reg" if isinstance(u, int) else "mstart", u])
+                alive.add(u)
+        for _ in range(rng.choice([2, 3, 4, 6, 8])):
+            r = rng.random()
+            if r < 0.55 or not units:
+                steps.append(["ch", change_for_read(rng, rng.choice(pool), game, allow_none_pv=False, seen=seen)])
+            elif r < 0.80 and alive:
+                u = rng.choice(sorted(alive, key=str))
+                alive.discard(u)
+                steps.append(["unreg" if isinstance(u, int) else "mstop", u])
+            else:
+                dead = [u for u in units if u not in alive]
+                if not dead:
+                    continue
+                u = rng.choice(dead)
+                alive.add(u)
+                steps.append(["reg" if isinstance(u, int) else "mstart", u])
+        case = {"env": env, "subs": subs, "groups": groups, "steps": steps}
+        try:
+            flags = sim_subs(case)
+        except TooBig:
+            continue
+        if flags["crash"]:
+            continue
+        if rng.random() < 0.5 and not subs_interesting(case):
+            continue
+        return case
+
+
+def subs_alive_trace(case):
+    """per step: the set of living entry ids after the step"""
+    alive = set()
+    out = []
+    for st in case["steps"]:
+        ids = step_ids(case, st)
+        if st[0] in ("reg", "mstart"):
+            alive |= set(ids)
+        elif st[0] in ("unreg", "mstop"):
+            alive -= set(ids)
+        out.append(set(alive))
+    return out
+
+
+def subs_interesting(case):
+    """an entry is cancelled while another one that reads a common cell lives on, and that cell changes afterwards"""
+    trace = subs_alive_trace(case)
+    reads = {s["id"]: set(lockey(t) for t in tree_reads(s["tree"])) for s in case["subs"]}
+    env = json.loads(json.dumps(case["env"]))
+    armed = set()
+    for st, alive in zip(case["steps"], trace):
+        if st[0] in ("unreg", "mstop"):
+            for i in step_ids(case, st):
+                for j in alive:
+                    armed |= reads[i] & reads[j]
+        elif st[0] == "ch":
+            before = env_store(env)["store"]
+            apply_env_change(env, st[1])
+            if set(store_diff(before, env_store(env)["store"])) & armed:
+                return True
+    return False
+
+
+def _patch_players(m, delivered, errors):
+    """record every call of handle_subscription_change of the real players (they use __slots__: the wrapper is put on
+    the class and removed again by the returned function)"""
+    undo = []
+    for name, section in SUB_PLAYERS.items():
+        pl = m.show_controller.show_players[section]
+        cls = type(pl)
+        had = "handle_subscription_change" in cls.__dict__
+        orig = cls.handle_subscription_change
+
+        def wrapper(self, value, settings, priority, context, key, _name=name, _orig=orig):
+            rec = delivered.setdefault((_name, context, key), {"n": 0, "last": None})
+            rec["n"] += 1
+            rec["last"] = {"v": tagv(value)}
+            try:
+                return _orig(self, value, settings, priority, context, key)
+            except BaseException as ex:   # noqa
+                if isinstance(ex, (KeyboardInterrupt, SystemExit)):
+                    raise
+                errors.append("%s consumer: %s: %s" % (_name, type(ex).__name__, str(ex)[:120]))
+        cls.handle_subscription_change = wrapper
+        undo.append((cls, had, orig))
+
+    def restore():
+        for cls, had, orig in undo:
+            if had:
+                cls.handle_subscription_change = orig
+            else:
+                del cls.handle_subscription_change
+    return restore
+
+
+def sub_raw_config(case, group):
+    cfg = {}
+    for s in case["subs"]:
+        if s["group"] == group["g"]:
+            if group["player"] == "event":
+                cfg["{%s}" % s["text"]] = "c16_sub_%d" % s["id"]
+            else:
+                cfg["{%s}" % s["text"]] = {"c16_out_%d" % s["id"]: {"action": "set_machine", "int": "1 if value else 0"}}
+    return cfg
+
+
+def run_subs(case):
+    e = case["env"]
+    rig = _expr_rig(bool(e["game"]))
+    m = rig.machine
+    pm = m.placeholder_manager
+    delivered, errors = {}, []
+    out = {"steps": []}
+    keys = {}
+    restore = None
+    try:
+        setup_env(rig, e)
+        if e["game"]:
+            setup_players(rig, e)
+        for mo in SUB_MODES:
+            if m.modes[mo].active:
+                m.events.post(mo + "_stop")
+        rig.advance(0.05)
+        players = {n: m.show_controller.show_players[sec] for n, sec in SUB_PLAYERS.items()}
+        restore = _patch_players(m, delivered, errors)
+        for g in case["groups"]:
+            if g["scope"] != "global":
+                mode = m.modes[g["scope"]]
+                players[g["player"]].process_mode_config(sub_raw_config(case, g), mode.config, mode)
+        alive = set()
+
+        def key_of(s):
+            return (s["player"], "_global" if s["scope"] == "global" else s["scope"], s["text"])
+        for st in case["steps"]:
+            before = {s["id"]: delivered.get(key_of(s), {"n": 0})["n"] for s in case["subs"]}
+            k = st[0]
+            if k == "ch":
+                apply_real_change(rig, st[1])
+            elif k == "reg":
+                g = case["groups"][st[1]]
+                pl = players[g["player"]]
+                keys[st[1]] = pl.register_player_events(pl.validate_config(sub_raw_config(case, g)))
+            elif k == "unreg":
+                players[case["groups"][st[1]]["player"]].unload_player_events(keys.pop(st[1]))
+            elif k == "mstart":
+                m.events.post(st[1] + "_start")
+            elif k == "mstop":
+                m.events.post(st[1] + "_stop")
+            rig.advance(0.05)
+            ids = step_ids(case, st)
+            if k in ("reg", "mstart"):
+                alive |= set(ids)
+            elif k in ("unreg", "mstop"):
+                alive -= set(ids)
+            if k in ("mstart", "mstop") and bool(m.modes[st[1]].active) != (k == "mstart"):
+                raise RuntimeError("mode %s did not %s" % (st[1], k))
+            obs = {}
+            for s in case["subs"]:
+                rec = delivered.get(key_of(s), {"n": 0, "last": None})
+                obs[str(s["id"])] = {"alive": s["id"] in alive, "fired": rec["n"] > before[s["id"]], "last": rec["last"],
+                                     "fresh": mpf_eval(pm, "raw", s["text"], None, [], subscribe=True)}
+            out["steps"].append(obs)
+        if rig.machine.stop_future.done() or rig.exception() is not None:
+            raise RuntimeError("machine stopped: %r" % (rig.exception(),))
+    except BaseException as ex:   # noqa
+        if isinstance(ex, (KeyboardInterrupt, SystemExit)):
+            raise
+        out["exc"] = type(ex).__name__ + ": " + str(ex)[:200]
+        if restore:
+            restore()
+        _R.pop("expr_game" if e["game"] else "expr", None)
+        try:
+            rig.stop()
+        except BaseException:   # noqa
+            pass
+        return out
+    # leave the machine as it was found
+    for gi in list(keys):
+        players[case["groups"][gi]["player"]].unload_player_events(keys.pop(gi))
+    for mo in SUB_MODES:
+        if m.modes[mo].active:
+            m.events.post(mo + "_stop")
+    rig.advance(0.05)
+    for mo in SUB_MODES:
+        for sec in SUB_SECTION.values():
+            m.modes[mo].config.pop(sec, None)
+    restore()
+    if errors:
+        out["consumer_errors"] = errors[:3]
+    return out
+
+
+def oracle_subs(case, out):
+    if sim_subs(case)["crash"]:
+        return []
+    if "exc" in out:
+        return [{"sig": "subscription-loop-raises", "what": "running the config-player entries raised %s" % out["exc"]}]
+    cancelled = []
+    for si, (st, obs) in enumerate(zip(case["steps"], out["steps"])):
+        if st[0] in ("unreg", "mstop"):
+            cancelled += step_ids(case, st)
+        for s in case["subs"]:
+            o = obs[str(s["id"])]
+            if not o["alive"]:
+                continue
+            if o["last"] is None:
+                return [{"sig": "subscriber-never-called", "what": "entry {%s} was registered but its consumer was never called" % s["text"]}]
+            if "exc" in o["fresh"]:
+                continue
+            if not py_equal(o["last"], o["fresh"]):
+                return [{"sig": "stale-value-concurrent-subscribers",
+                         "what": "%s_player entry {%s} (%s) still holds %r after step %d (%r) but the template now evaluates to %r%s"
+                                 % (s["player"], s["text"], s["scope"], o["last"], si, st, o["fresh"],
+                                    "; entries %r had been unloaded before" % sorted(set(cancelled)) if cancelled else "")}]
+    if out.get("consumer_errors"):
+        return [{"sig": "subscription-consumer-raises", "what": "; ".join(out["consumer_errors"])}]
+    return []
+
+
+def coq_subs(case, out):
+    flags = sim_subs(case)
+    if flags["crash"] or flags["unsup"] or "exc" in out:
+        return None
+    steps = []
+    for st in case["steps"]:
+        if st[0] == "ch":
+            steps.append("(MChange %s)" % cchange(st[1]))
+        else:
+            steps.append("(%s %s)" % ("MStart" if st[0] in ("reg", "mstart") else "MCancel", coqlist(zlit(i) for i in step_ids(case, st))))
+    inp = "(%s, %s, %s)" % (cenv(case["env"]), coqlist("(%d, %s)" % (s["id"], cexpr(s["tree"])) for s in case["subs"]), coqlist(steps))
+    exp = []
+    for obs in out["steps"]:
+        row = []
+        for s in case["subs"]:
+            o = obs[str(s["id"])]
+            if not o["alive"]:
+                row.append("(%d, @None (bool * outcome))" % s["id"])
+                continue
+            if o["last"] is None:
+                return "(%s, [])" % inp          # registered but never called: cannot agree with the model
+            c = coutcome(o["last"])
+            if c is None:
+                return None
+            row.append("(%d, Some (%s, %s))" % (s["id"], blit(o["fired"]), c))
+        exp.append(coqlist(row))
+    return "(%s, %s)" % (inp, coqlist(exp))
+
+
+def shrink_subs(case):
+    st = case["steps"]
+    for i in range(len(st)):
+        c = dict(case)
+        c["steps"] = st[:i] + st[i + 1:]
+        if c["steps"] and subs_steps_valid(c):
+            yield c
+    for s in case["subs"]:
+        if len([x for x in case["subs"] if x["group"] == s["group"]]) > 1:
+            c = dict(case)
+            c["subs"] = [x for x in case["subs"] if x["id"] != s["id"]]
+            yield c
+    for i, s in enumerate(case["subs"]):
+        for t in shrink_tree(s["tree"]):
+            if tree_uses_names(t):
+                continue
+            try:
+                text = to_text(t)
+            except Exception:
+                continue
+            if any(x["text"] == text and x["player"] == s["player"] for x in case["subs"]):
+                continue
+            c = dict(case)
+            c["subs"] = case["subs"][:i] + [dict(s, tree=t, text=text)] + case["subs"][i + 1:]
+            try:
+                if sim_subs(c)["crash"]:
+                    continue
+            except TooBig:
+                continue
+            yield c
+
+
+def subs_steps_valid(case):
+    alive = set()
+    for st in case["steps"]:
+        if st[0] in ("reg", "mstart"):
+            if st[1] in alive:
+                return False
+            alive.add(st[1])
+        elif st[0] in ("unreg", "mstop"):
+            if st[1] not in alive:
+                return False
+            alive.discard(st[1])
+    return True
+
+
+def nontrivial_subs(case, out):
+    return subs_interesting(case)
+
+
+def describe_subs(case):
+    return "entries=%d %s" % (len(case["subs"]), "cancel-then-change" if subs_interesting(case) else "plain")
+
+
+HDR_SUBS = "From C16 Require Import Multi.\nDefinition run := multi_run.\nDefinition out_eqb := multi_out_eqb.\n" + names_header()
+
+# ================================================================================================
 HDR_OPS = "From C16 Require Import Model.\nDefinition run := ops_run.\nDefinition out_eqb := res_eqb.\n" + names_header()
 HDR_EXPR = "From C16 Require Import Model.\nDefinition run := expr_run.\nDefinition out_eqb := expr_out_eqb.\n" + names_header()
 
@@ -1928,9 +2798,13 @@ SUITES = [
     Suite("ops", gen_ops, run_ops, HDR_OPS, coq_ops, oracle_ops, shrink_ops, None,
           {"quick": 5000, "thorough": 200000}, describe=describe_ops, shard=800),
     Suite("expr", gen_expr, run_expr, HDR_EXPR, coq_expr, oracle_expr, shrink_expr, nontrivial_expr,
-          {"quick": 3500, "thorough": 150000}, describe=describe_expr, shard=250),
+          {"quick": 3200, "thorough": 150000}, describe=describe_expr, shard=250),
     Suite("hist", gen_hist, run_hist, HDR_HIST, coq_hist, oracle_hist, shrink_hist, nontrivial_hist,
           {"quick": 1400, "thorough": 40000}, describe=describe_hist, shard=150),
     Suite("ext", gen_ext, run_expr, None, None, oracle_expr, shrink_expr, nontrivial_expr,
           {"quick": 800, "thorough": 50000}, describe=describe_expr),
+    Suite("cond", gen_cond, run_cond, HDR_COND, coq_cond, oracle_cond, shrink_cond, nontrivial_cond,
+          {"quick": 1000, "thorough": 40000}, describe=describe_cond, shard=200),
+    Suite("subs", gen_subs, run_subs, HDR_SUBS, coq_subs, oracle_subs, shrink_subs, nontrivial_subs,
+          {"quick": 600, "thorough": 25000}, describe=describe_subs, shard=150),
 ]
